@@ -44,7 +44,7 @@ use std::time::Duration;
 pub const META: PropMeta = PropMeta {
     id: "C17",
     level: "exploration",
-    rule: "case = payload (0..64 KiB, patterned) x SO_SNDBUF choice per direction x write/read chunk plans (plain or vectored, optional readable()/writable() await first) x topology (writer+reader tasks on two adapters; reader adapter fed synchronously; writer adapter drained synchronously; echo task alternating READ/WRITE on one adapter driven synchronously; echo task + ping-pong client task on two adapters) x scheduling order/gap x dispatch plan (count and timeout of dispatches per round) x injected spurious re-polls x injected abandoned waiters (an adapter operation first polled under a foreign waker, then under the task's own, before any dispatch) x an optional rejected second adapt_io on the fd of a live adapter before the session starts x blocking mode before adapt_io x adapter end (drop | into_inner; inside the task | after the tasks | after the loop was dropped). non-trivial: at least one WouldBlock on a write was observed (adapter poll_write Pending, or EAGAIN on the synchronous writer = payload larger than the send buffer) or an adapter switched its awaited interest (READ<->WRITE) at least once. distinct: by fingerprint of the normalised case",
+    rule: "case = payload (0..64 KiB, patterned) x SO_SNDBUF choice per direction x write/read chunk plans (plain or vectored, optional readable()/writable() await first, optional zero-length write first: one poll must return Ok(0)) x topology (writer+reader tasks on two adapters; reader adapter fed synchronously; writer adapter drained synchronously; echo task alternating READ/WRITE on one adapter driven synchronously; echo task + ping-pong client task on two adapters) x scheduling order/gap x dispatch plan (count and timeout of dispatches per round) x injected spurious re-polls x injected abandoned waiters (an adapter operation first polled under a foreign waker, then under the task's own, before any dispatch) x an optional rejected second adapt_io on the fd of a live adapter before the session starts x blocking mode before adapt_io x adapter end (drop | into_inner; inside the task | after the tasks | after the loop was dropped). non-trivial: at least one WouldBlock on a write was observed (adapter poll_write Pending, or EAGAIN on the synchronous writer = payload larger than the send buffer) or an adapter switched its awaited interest (READ<->WRITE) at least once. distinct: by fingerprint of the normalised case. sub-check hist: the history machine with an adapter-heavy profile, the monitor's adapter rules judged for C17",
     assumptions: &[
         "AF_UNIX SOCK_STREAM socketpair: poll(2) and epoll share the socket's poll function, so poll(2) readiness is the ground truth for what epoll must report after a one-shot re-arm",
         "a dispatch whose poller reports the executor's ping runs the woken task; hence two dispatches bound the distance from 'fd ready + interest armed' to 'task polled'",
